@@ -73,6 +73,11 @@ def generate(rng, i, tier):
         m = gen.gen_member(rng, hdr, len(rows), ident, modes=modes, zoo_p=0.3, zoo_pool=gen.ZOO_SAFE)
         if transfer:
             m["comps"].insert(0, f'@tv{j} = "out/m{j}.csv"')
+        if rng.random() < 0.1:
+            # printing to a NAMED printer (sometimes the member prints nowhere else)
+            m["comps"].append('print("audit $.csvpath.line_number", "audit")')
+            if rng.random() < 0.5:
+                m["comps"] = [c for c in m["comps"] if not (c.startswith("print") and '"audit")' not in c)]
         if rng.random() < 0.2:
             # in-place edits of the line (append/replace): in a breadth-first run later members see the edited line
             m["comps"].insert(rng.randint(0, len(m["comps"])), gen.zoo_comp(rng, hdr, 40 + j, gen.ZOO_REWRITE))
@@ -270,8 +275,8 @@ def check_run_archive(out, cs, group, members, where, *, collecting, caller_line
 
 
 class _TornSpool:
-    """Disk-full seam for the spooled result files: while active, the nth write to a file called data.csv or
-    unmatched.csv (opened for writing/appending) stores only `cut` of its bytes and raises ENOSPC, once."""
+    """Disk-full seam for the spooled result files: while active, the nth write to one of a member's result files (data.csv,
+    unmatched.csv, printouts.txt, vars.json, errors.json, meta.json; opened for writing/appending) stores only `cut` of its bytes and raises ENOSPC, once."""
 
     def __init__(self, cut, nth):
         self.cut = cut
@@ -314,7 +319,7 @@ class _TornSpool:
 
         def opener(file, mode="r", *a, **kw):
             f = real(file, mode, *a, **kw)
-            if not st["fired"] and isinstance(file, str) and os.path.basename(file) in ("data.csv", "unmatched.csv") and any(c in mode for c in "wax") and "b" not in mode:
+            if not st["fired"] and isinstance(file, str) and os.path.basename(file) in ("data.csv", "unmatched.csv", "printouts.txt", "vars.json", "errors.json", "meta.json") and any(c in mode for c in "wax") and "b" not in mode:
                 return Torn(f)
             return f
 
@@ -445,6 +450,7 @@ def execute(sc):
         out.probe("member that edits the line in place (append/replace)", any(c.startswith(("append(", "replace(")) for m in sc["members"] for c in m["comps"]))
         out.probe("archived member file larger than 64 KiB", any(len(c) > 65536 for r in sc["rows"] for c in r))
         out.probe("transfer that could not be made (run raised)", False)
+        out.probe("member that prints to a named printer", any('"audit")' in c for m in sc["members"] for c in m["comps"]))
         out.probe("member with transfer-mode", any("transfer-mode" in (m.get("modes") or {}) for m in sc["members"]))
         out.probe("member with run-mode: no-run", any((m.get("modes") or {}).get("run-mode") == "no-run" for m in sc["members"]))
         out.log("tree", _digest_tree(checked_dirs))
